@@ -340,6 +340,12 @@ func runC09(r *Run, verifDir string) {
 		}
 	}
 	r.Check(okRange, "C09.B2", "kmipserver.BatchExecutor.handleRequest/range", hr.Pos(), "the loop ranges over 0..len(req.BatchItem)", "the item loop does not range over exactly the request's items")
+	// the "fill the tail and leave" form of stopping: instead of carrying a flag, the iteration that stops the batch
+	// reports every remaining item in an inner loop and breaks
+	var tail *c09Tail
+	if hdr != nil && idx != nil {
+		tail = c09FindTail(hr, hdr, idx, exec, failedConst, stopConst, func(v ssa.Value) bool { return reqField(v, "BatchItem") }, mk)
+	}
 	// stores to response slot: every path header->header stores exactly once to [idx]
 	slotStores := map[*ssa.BasicBlock]int{}
 	nAppend := 0
@@ -437,9 +443,13 @@ func runC09(r *Run, verifDir string) {
 		return op, id
 	}
 	// stopped branch in handleRequest: source is &req.BatchItem[i]
+	skipIdx := idx
+	if tail != nil {
+		skipIdx = tail.j
+	}
 	op1, id1 := echoField(hr, func(v ssa.Value) bool {
 		ia, ok := v.(*ssa.IndexAddr)
-		return ok && ia.Index == idx && reqField(ia.X, "BatchItem")
+		return ok && ia.Index == skipIdx && reqField(ia.X, "BatchItem")
 	})
 	r.Check(op1 && id1, "C09.B3", "kmipserver.BatchExecutor.handleRequest/stopped-item", hr.Pos(), "the item reported for a skipped request item copies its Operation and UniqueBatchItemID", "the item reported for a skipped request item does not echo its Operation and UniqueBatchItemID")
 	ei := p.Func("kmipserver", "BatchExecutor", "executeItem")
@@ -534,7 +544,7 @@ func runC09(r *Run, verifDir string) {
 		for _, b := range hr.Blocks {
 			if b != hdr && hdr.Dominates(b) {
 				for _, s := range b.Succs {
-					if s != hdr && s.Dominates(b) {
+					if s != hdr && s.Dominates(b) && !(tail != nil && s == tail.hdr) {
 						innerLoop = true
 					}
 				}
@@ -579,7 +589,12 @@ func runC09(r *Run, verifDir string) {
 			}
 		}
 	}
-	if stopped == nil {
+	if stopped == nil && tail != nil {
+		r.Check(tail.range_ == "", "C09.B2", "kmipserver.BatchExecutor.handleRequest/tail-range", tail.hdr.Instrs[0].Pos(), "the stopping iteration fills slots i+1..len-1, each exactly once, then leaves the item loop", "the loop that reports the items after a stop does not cover exactly the remaining slots ("+tail.range_+"): the response does not have one item per request item")
+		r.Check(tail.entry == "", "C09.B5", "kmipserver.BatchExecutor.handleRequest/stop-set", tail.hdr.Instrs[0].Pos(), "the remaining items are reported as stopped only when the item's status is OperationFailed and the option is Stop", "the batch is stopped under another condition than (status == OperationFailed && option == Stop) ("+tail.entry+"): items are skipped under Continue, or keep running under Stop")
+		r.Check(tail.leaves == "", "C09.B5", "kmipserver.BatchExecutor.handleRequest/stop-sticky", tail.hdr.Instrs[0].Pos(), "after the remaining items are reported the item loop is left: nothing runs after a stop", "after a stop the item loop can continue ("+tail.leaves+"): items after the first failure run again under Stop")
+		r.Check(tail.failed == "", "C09.B5", "kmipserver.BatchExecutor.handleRequest/stop-branches", exec.Pos(), "the executor is not called for the remaining items; they are reported with status OperationFailed", "after a stop, items are still executed or are not reported as failed ("+tail.failed+")")
+	} else if stopped == nil {
 		r.Unk("C09.B5", "kmipserver.BatchExecutor.handleRequest/stop-flag", hr.Pos(), "the stopped flag (a bool carried around the loop) was not found")
 	} else {
 		okSet, okNoReset := true, true
@@ -1504,6 +1519,21 @@ func c09B7(r *Run) {
 					return true
 				}
 			}
+		case *ssa.Slice:
+			// the variadic arguments of a call (cmp.Or(field, default)): the values stored into the array
+			if al, ok := x.X.(*ssa.Alloc); ok {
+				for _, ref := range *al.Referrers() {
+					ia, ok := ref.(*ssa.IndexAddr)
+					if !ok {
+						continue
+					}
+					for _, r2 := range *ia.Referrers() {
+						if st, ok := r2.(*ssa.Store); ok && st.Addr == ssa.Value(ia) && reads(st.Val, name, d+1) {
+							return true
+						}
+					}
+				}
+			}
 		}
 		return false
 	}
@@ -1550,4 +1580,249 @@ func c09B7(r *Run) {
 	if n == 0 {
 		r.Unk("C09.B7", "kmipserver.BatchExecutor.handleRequest/whole-rejections", hr.Pos(), "no whole-request rejection found")
 	}
+}
+
+// c09Tail describes the inner loop of handleRequest that reports the items after a stop. The four strings are empty
+// when the corresponding clause holds, else the reason.
+type c09Tail struct {
+	hdr    *ssa.BasicBlock
+	j      ssa.Value
+	range_ string // covers idx+1 .. len(items)-1, one store per slot
+	entry  string // entered only under status == OperationFailed && option == Stop
+	leaves string // its exit leaves the item loop; nothing else does
+	failed string // stores status OperationFailed; does not execute
+}
+
+func c09FindTail(hr *ssa.Function, outer *ssa.BasicBlock, idx ssa.Value, exec *ssa.Call, failedConst, stopConst int64, isReqItems func(ssa.Value) bool, mk *ssa.MakeSlice) *c09Tail {
+	var ih *ssa.BasicBlock
+	for _, b := range hr.Blocks {
+		if b == outer || !outer.Dominates(b) {
+			continue
+		}
+		for _, pr := range b.Preds {
+			if b.Dominates(pr) {
+				if ih != nil && ih != b {
+					return nil // more than one inner loop
+				}
+				ih = b
+			}
+		}
+	}
+	if ih == nil || len(ih.Instrs) == 0 {
+		return nil
+	}
+	t := &c09Tail{hdr: ih}
+	// the response slice is the one made with len(req.BatchItem)
+	isRespItems := func(v ssa.Value) bool {
+		sl, ok := v.Type().Underlying().(*types.Slice)
+		if !ok || typeName(sl.Elem()) != "ResponseBatchItem" || mk == nil {
+			return false
+		}
+		same := true
+		allInstrs(hr, func(in ssa.Instruction) {
+			if st, ok := in.(*ssa.Store); ok {
+				if sl2, ok := st.Val.Type().Underlying().(*types.Slice); ok && typeName(sl2.Elem()) == "ResponseBatchItem" && st.Val != ssa.Value(mk) {
+					same = false
+				}
+			}
+		})
+		return same
+	}
+	// j < len(items), j = phi(idx+1, j+1)
+	iff, ok := ih.Instrs[len(ih.Instrs)-1].(*ssa.If)
+	var bo *ssa.BinOp
+	if ok {
+		bo, _ = iff.Cond.(*ssa.BinOp)
+	}
+	if bo == nil {
+		return nil
+	}
+	jv, bound, inEdge := bo.X, bo.Y, 0
+	switch bo.Op {
+	case token.LSS:
+	case token.GTR:
+		jv, bound = bo.Y, bo.X
+	case token.GEQ:
+		inEdge = 1
+	case token.LEQ:
+		jv, bound, inEdge = bo.Y, bo.X, 1
+	default:
+		return nil
+	}
+	jp, ok := jv.(*ssa.Phi)
+	if !ok || jp.Block() != ih {
+		return nil
+	}
+	t.j = jp
+	plusOne := func(v, base ssa.Value) bool {
+		b, ok := v.(*ssa.BinOp)
+		if !ok || b.Op != token.ADD {
+			return false
+		}
+		k, isK := constIntVal(b.Y)
+		return isK && k == 1 && b.X == base
+	}
+	y, isLen := lenOperand(bound)
+	switch {
+	case !isLen || !(isReqItems(y) || isRespItems(y)):
+		t.range_ = "its bound is not the number of items"
+	}
+	for i, e := range jp.Edges {
+		pr := ih.Preds[i]
+		if ih.Dominates(pr) {
+			if !plusOne(e, jp) {
+				t.range_ = "it does not advance by one"
+			}
+		} else if !plusOne(e, idx) {
+			t.range_ = "it does not start at the slot after the current item"
+		}
+	}
+	// one store to slot j on every path around the inner loop
+	body := ih.Succs[inEdge]
+	exit := ih.Succs[1-inEdge]
+	stores := map[*ssa.BasicBlock]int{}
+	allInstrs(hr, func(in ssa.Instruction) {
+		st, ok := in.(*ssa.Store)
+		if !ok || !ih.Dominates(st.Block()) {
+			return
+		}
+		if ia, ok := st.Addr.(*ssa.IndexAddr); ok {
+			if sl, ok := ia.X.Type().Underlying().(*types.Slice); ok && typeName(sl.Elem()) == "ResponseBatchItem" {
+				if ia.Index == ssa.Value(jp) {
+					stores[st.Block()]++
+				} else {
+					t.range_ = "it stores into another slot than its own index"
+				}
+			}
+		}
+	})
+	var walk func(b *ssa.BasicBlock, seen map[*ssa.BasicBlock]bool, n int)
+	walk = func(b *ssa.BasicBlock, seen map[*ssa.BasicBlock]bool, n int) {
+		n += stores[b]
+		for _, s := range b.Succs {
+			if s == ih {
+				if n != 1 && t.range_ == "" {
+					t.range_ = fmt.Sprintf("a path around it stores %d times into its slot", n)
+				}
+				continue
+			}
+			if seen[s] {
+				continue
+			}
+			if !ih.Dominates(s) || !reachableFrom(s)[ih] {
+				if t.range_ == "" { // only the loop test itself may end the reporting loop
+					t.range_ = "the reporting loop can be left before the last slot"
+				}
+				continue
+			}
+			seen[s] = true
+			walk(s, seen, n)
+			delete(seen, s)
+		}
+	}
+	if body == ih {
+		t.range_ = "empty body"
+	} else {
+		walk(body, map[*ssa.BasicBlock]bool{body: true}, 0)
+	}
+	// leaving: the exit cannot come back to the item loop; and the item loop is left only from its own header or here
+	if reachableFrom(exit)[outer] {
+		t.leaves = "the item loop continues after the remaining items were reported"
+	}
+	inOuter := reachableFromWithin(outer)
+	for _, b := range hr.Blocks {
+		if !outer.Dominates(b) || !inOuter[b] || b == outer || b == ih {
+			continue
+		}
+		for _, s := range b.Succs {
+			if !reachableFrom(s)[outer] && !mustReach(s, ih, map[*ssa.BasicBlock]bool{}) && t.leaves == "" {
+				t.leaves = "the item loop is left without reporting the remaining items"
+			}
+		}
+	}
+	// entry: failed && stop
+	for i, pr := range ih.Preds {
+		if ih.Dominates(pr) {
+			continue
+		}
+		_ = i
+		conds := dominatingConds(pr)
+		if cnd, isTrue, ok := edgeTaken(pr, ih); ok {
+			conds = append(conds, domCond{cnd, isTrue, pr})
+		}
+		fail, stop := false, false
+		for _, dc := range conds {
+			b, ok := dc.cond.(*ssa.BinOp)
+			if !ok || !((b.Op == token.EQL && dc.outcome) || (b.Op == token.NEQ && !dc.outcome)) {
+				continue
+			}
+			x, yv := b.X, b.Y
+			if _, isK := constIntVal(x); isK {
+				x, yv = yv, x
+			}
+			k, isK := constIntVal(yv)
+			if !isK {
+				continue
+			}
+			if typeName(x.Type()) == "ResultStatus" && k == failedConst && outer.Dominates(dc.at) {
+				fail = true
+			}
+			if typeName(x.Type()) == "BatchErrorContinuationOption" && k == stopConst {
+				stop = true
+			}
+		}
+		if !fail || !stop {
+			t.entry = fmt.Sprintf("failed=%v stop=%v", fail, stop)
+		}
+	}
+	// reported as failed, not executed
+	failedStored := false
+	allInstrs(hr, func(in ssa.Instruction) {
+		if !ih.Dominates(in.Block()) || !reachableFrom(in.Block())[ih] {
+			return
+		}
+		if st, ok := in.(*ssa.Store); ok {
+			if _, fld, ok := fieldAddrOf(st.Addr); ok && fname(fld) == "ResultStatus" {
+				if k, ok := constIntVal(st.Val); ok && k == failedConst {
+					failedStored = true
+				}
+			}
+		}
+		if c, ok := in.(*ssa.Call); ok && c.Call.StaticCallee() != nil && c.Call.StaticCallee() == exec.Call.StaticCallee() {
+			t.failed = "the executor is called for the remaining items"
+		}
+	})
+	if !failedStored && t.failed == "" {
+		t.failed = "the remaining items are not given status OperationFailed"
+	}
+	return t
+}
+
+// reachableFromWithin: the blocks of the natural loop headed by hdr (those dominated by hdr that can reach it).
+func reachableFromWithin(hdr *ssa.BasicBlock) map[*ssa.BasicBlock]bool {
+	out := map[*ssa.BasicBlock]bool{}
+	for _, b := range hdr.Parent().Blocks {
+		if hdr.Dominates(b) && reachableFrom(b)[hdr] {
+			out[b] = true
+		}
+	}
+	return out
+}
+
+// mustReach: every path from b arrives at target (no return, no cycle before it).
+func mustReach(b, target *ssa.BasicBlock, onPath map[*ssa.BasicBlock]bool) bool {
+	if b == target {
+		return true
+	}
+	if len(b.Succs) == 0 || onPath[b] {
+		return false
+	}
+	onPath[b] = true
+	defer delete(onPath, b)
+	for _, s := range b.Succs {
+		if !mustReach(s, target, onPath) {
+			return false
+		}
+	}
+	return true
 }
